@@ -98,9 +98,28 @@ def family_d():
             ("rg", None, rg.encode())]
 
 
+# characters whose lower-/upper-case form has a different byte length (code that measures on a case-folded
+# copy and cuts the original goes wrong exactly there), a combining mark, a zero-width joiner sequence
+CASE_CHARS = ["\u0130", "\u212a", "\u212b", "\u1e9e", "\u023a", "\u00df", "\ufb01", "\u0149", "e\u0301",
+              "\U0001f468\u200d\U0001f469"]
+
+
+def family_e():
+    head = "diff --git a/f b/f\n--- a/f\n+++ b/f\n@@ -1,3 +1,3 @@\n"
+    out = []
+    for ch in CASE_CHARS:
+        for body in (ch, "x" + ch, ch + "y", "x " + ch + ch + " y", ch * 12):
+            out.append((head + " " + body + "\n-" + body + "\n+" + body + "z\n").encode("utf-8"))
+            out.append((head + "-" + body + "\n").encode("utf-8"))
+            out.append((head + "+" + body + "\n").encode("utf-8"))
+    return out
+
+
 def run_task(task):
     label, opts, caller, pty, inputs, deadline = task
-    args = build_args(base_opts(opts))
+    plain = opts.get("_plain")
+    opts = {k: v for k, v in opts.items() if not k.startswith("_")}
+    args = build_args(base_opts(opts, reserved=not plain))
     drv = explore.get_driver(caller=caller, pty=pty)
     try:
         cid = drv.mkconfig(args)
@@ -148,7 +167,8 @@ def run_task(task):
 
 ASSUMPTIONS = [
     "inputs' own escape sequences are balanced (generated and verified with the same terminal model)",
-    "families A-D as described in the module docstring; values outside them are not covered",
+    "families A-D as described in the module docstring, E: hunk lines containing characters whose case mappings "
+    "change their byte length; values outside them are not covered",
     "renders that crash are C03's business and are skipped here",
 ]
 
@@ -194,6 +214,16 @@ def main(tier):
                      "hunk-header-style": "file line-number 110", "line-numbers": True}
                 tasks.append(("C:W=%d,deco=%s" % (W, deco), o, None, None, fc))
                 tasks.append(("C:W=%d,deco=%s,pty" % (W, deco), dict(o, width=None), None, (24, W), fc))
+    # E: characters with length-changing case mappings, in every fill / view
+    fe = family_e()
+    for label, o, pty in [("default", {}, None), ("ln", {"line-numbers": True}, None),
+                          ("sbs", {"side-by-side": True, "width": "30"}, None),
+                          ("spaces", {"line-fill-method": "spaces"}, None),
+                          ("pty-ansi", {"width": None, "line-fill-method": "ansi"}, (24, 33)),
+                          ("pty-sbs-ansi", {"width": None, "side-by-side": True, "line-fill-method": "ansi"}, (24, 33)),
+                          ("max-line-length=3", {"max-line-length": "3"}, None),
+                          ("delta-default-styles", {"_plain": True}, None)]:
+        tasks.append(("E:" + label, o, None, pty, fe))
     # D: blame / grep
     for name, caller, data in family_d():
         for o in ({}, {"hyperlinks": True}, {"hyperlinks": True, "navigate": True, "width": "20"},
